@@ -34,6 +34,11 @@ def jobs(ctx, props):
             menu.append((tag, ('A',)))
         out.append((name + '/empty-targets', desc, ['A'], props,
                     {'reqs': 2 if quick else 3, 'req_menu': menu}))
+    # one transient data-base outage: the first db.next() draw of some dispatch
+    # raises (farm.dispatch is written to survive exactly this)
+    for name in ('single', 'chain2', 'pair', 'task-analysis'):
+        out.append((name + '/db-outage', E[name], ['A', 'B'] if name in ('single', 'pair') else ['A'], props,
+                    {'reqs': 2, 'faults': 1 if quick else 2}))
     out += schedcheck.timer_jobs(props, quick)
     return out
 
